@@ -1,14 +1,16 @@
 #!/bin/bash
 # try_mutant.sh <patch|-R:commit> <id>... : apply a change to /repo's working tree, run the checks, undo it.
 p=$1; shift
-cd /repo
+REPO=${VERIF_REPO:-/repo}
+HERE=$(cd "$(dirname "$0")/.." && pwd)
+cd $REPO
 if [[ $p == -R:* ]]; then git show ${p#-R:} | git apply -R || exit 2; else git apply $p || exit 2; fi
-cd /verif
+cd $HERE
 rm -rf _build/evidence_backup && cp -r evidence _build/evidence_backup
 for id in "$@"; do
   out=$(./check $id 2>&1); rc=$?
   echo "[$id rc=$rc] $(echo "$out" | grep -E '^VIOLATION|^KNOWN' | head -2 | tr '\n' ' ') $(echo "$out" | grep '^#' | head -1 | cut -c1-220)"
 done
-git -C /repo checkout -- .
+git -C $REPO checkout -- .
 # evidence written while /repo was modified must not be kept
 rm -rf evidence && mv _build/evidence_backup evidence
